@@ -17,7 +17,10 @@ RULE = ("A zoo transform (leaf, composite, Inverse/Multiscale wrappers, flat and
         "|out32 - out64| <= 4096 * (kappa_hat + u32 * (1 + |out64|)) where kappa_hat is the largest change of the float64 "
         "result when inputs and parameters are perturbed by random relative 2^-23 (8 draws) - an empirical 'how far can "
         "rounding the data to float32 move the answer'. Non-trivial: the map is non-linear or has >= 2 features and "
-        "kappa_hat < 1e-2. Distinct = distinct case JSON.")
+        "kappa_hat < 1e-2. One case in ten is a statistics/determinant case: BatchNorm training-mode steps and ActNorm data-dependent "
+        "initialisation on batches with |mean|/std up to 950 (|x| <= 10), outputs, log-dets, running statistics and the following "
+        "evaluation-mode forward/inverse against the float64 twin at K=16 (plus the inherent u*|x|/std of a single-precision batch mean); "
+        "Naive/LU/QR/SVD linear layers with 16-200 features, with and without cache, at K=256. Distinct = distinct case JSON.")
 ASSUMPTIONS = ["'moderate magnitude' is read as |parameter| <= 2, |input| <= 5 (with +-2 the RQ discriminant never degenerates; see DESIGN 3/C19)",
                "K=4096: stable paths measured <= ~1300 with an 8-draw conditioning probe (which under-estimates the worst case), unstable root formulas >= 1e4"]
 EXPLANATION = "generated"
@@ -51,7 +54,35 @@ def _tame(spec):
 
 
 @st.composite
+def _stat_case(draw):
+    """data-dependent statistics and wide determinants: places where a float32 formula can cancel or under/overflow although every
+    input and parameter is moderate"""
+    kind = draw(st.sampled_from(["bn_train", "bn_train", "actnorm_init", "wide_linear"]))
+    c = {"stat": kind, "seed": draw(st.integers(0, 10 ** 6))}
+    if kind == "wide_linear":
+        c["D"] = draw(st.sampled_from([16, 48, 64, 96, 112, 128, 144, 200]))
+        c["lin"] = draw(st.sampled_from(["naive", "naive", "lu", "qr", "svd"]))
+        c["orth"] = draw(st.booleans())
+        c["cache"] = draw(st.booleans())
+        c["scale"] = draw(st.sampled_from([1.0, 1.0, 0.5, 2.0]))
+        c["direction"] = draw(st.sampled_from(["forward", "inverse"]))
+        c["n"] = draw(st.integers(1, 3))
+    else:
+        c["F"] = draw(st.integers(1, 4))
+        c["img"] = draw(st.booleans()) if kind == "actnorm_init" else False
+        c["n"] = draw(st.sampled_from([2, 3, 8, 32, 64, 256]))
+        c["mean"] = draw(st.sampled_from([0.0, 1.0, -3.0, 8.0, 9.5, -9.5]))
+        c["std"] = draw(st.sampled_from([0.01, 0.05, 0.3, 1.0]))
+        c["affine"] = draw(st.booleans())
+        c["eps"] = draw(st.sampled_from([1e-5, 1e-3]))
+        c["steps"] = draw(st.integers(1, 3))
+    return c
+
+
+@st.composite
 def _case(draw):
+    if draw(st.integers(0, 9)) == 0:
+        return draw(_stat_case())
     c = draw(zoo.transform_case({"regimes": ["bounded", "bounded", "fresh", "small"], "umnn": draw(st.integers(0, 15)) == 0}))
     if draw(st.integers(0, 7)) == 0:
         # saturating elementwise leaves on their own, fed up to |x| ~ 20: where naive formulas (log(sigmoid), log(1-tanh^2))
@@ -112,8 +143,166 @@ def _has_cubic(spec):
     return zoo.FAM_OF.get(t) == "cub"
 
 
+K_STAT = 256.0
+
+
+def _cmp(res, site, what, a32, a64, kappa, K=None, **sig):
+    """|a32 - a64| <= K_STAT * (kappa + u32 * (1 + |a64|)); returns False after recording a failure"""
+    if a32.dtype != torch.float32 or a64.dtype != torch.float64:
+        res.fail("dtype_not_preserved", site, "%s: float32 model -> %s, float64 twin -> %s" % (what, a32.dtype, a64.dtype), what=what)
+        return False
+    if not bool(torch.isfinite(a64).all()):
+        res.inconclusive += 1
+        return False
+    if not bool(torch.isfinite(a32).all()):
+        res.fail("nonfinite_float32", site, "%s: float32 result is not finite while float64 is" % what, what=what, cubic_inverse=False, **sig)
+        return False
+    e = float((a32.double() - a64).abs().max())
+    t = (K or K_STAT) * (kappa + 2.0 ** -24 * (1 + float(a64.abs().max())))
+    res.see_ratio(e, t)
+    if e > t:
+        res.fail("f32_mismatch", site, "%s: float32 differs from float64 by %.3g (allowed %.3g, measured conditioning %.3g)" % (what, e, t, kappa),
+                 measured=e / t, tol=1.0, what=what, scaled_err=e / t, cubic_inverse=False, has_cubic=False, **sig)
+        return False
+    return True
+
+
+def _run_stat(case, res):
+    from nflows import transforms as T
+    kind = case["stat"]
+    torch.manual_seed(case["seed"])
+    g = torch.Generator().manual_seed(case["seed"] + 1)
+    rel = 2.0 ** -23
+    res.labels += ["stat:" + kind]
+    if kind == "wide_linear":
+        D = case["D"]
+        cls = {"naive": T.NaiveLinear, "lu": T.LULinear, "qr": T.QRLinear, "svd": T.SVDLinear}[case["lin"]]
+        kw = {"orthogonal_initialization": case["orth"]} if case["lin"] == "naive" else ({"num_householder": 4} if case["lin"] in ("qr", "svd") else {})
+        m = cls(D, using_cache=case["cache"], **kw)
+        with torch.no_grad():
+            for p_ in m.parameters():
+                p_.add_(torch.randn(p_.shape, generator=g) * 0.02).mul_(case["scale"] if p_.dim() == 2 or case["lin"] != "naive" else 1.0)
+        m.eval()
+        site = cls.__name__
+        res.labels += ["lin:" + case["lin"], "D:%d" % D]
+        twin = copy.deepcopy(m).double()
+        X = torch.randn(case["n"], D, generator=g) * 2
+        inverse = case["direction"] == "inverse"
+        Xd = X.double()
+        with torch.no_grad():
+            o64, l64 = twin.inverse(Xd) if inverse else twin(Xd)
+            if not bool(torch.isfinite(l64).all()) or float(o64.abs().max()) > 1e6:
+                res.inconclusive += 1
+                return res
+            ko = kl = 0.0
+            for _ in range(4):
+                t2 = copy.deepcopy(twin)
+                for p_ in t2.parameters():
+                    p_.mul_(1 + rel * (torch.rand(p_.shape, generator=g, dtype=torch.float64) * 2 - 1))
+                Xp = Xd * (1 + rel * (torch.rand(Xd.shape, generator=g, dtype=torch.float64) * 2 - 1))
+                po, pl = t2.inverse(Xp) if inverse else t2(Xp)
+                ko, kl = max(ko, float((po - o64).abs().max())), max(kl, float((pl - l64).abs().max()))
+            if max(ko, kl) > 1e-2:
+                res.inconclusive += 1     # ill-conditioned draw
+                return res
+            outs = []
+            for rep in range(2 if case["cache"] else 1):     # second call answers from the cache
+                try:
+                    outs.append(m.inverse(X) if inverse else m(X))
+                except Exception as e:
+                    from vf.core import nflows_site
+                    res.fail("float32_raises", nflows_site(e) or site, "%s in float32 while the float64 twin returns: %s" % (type(e).__name__, str(e)[:200]),
+                             exc=type(e).__name__, direction=case["direction"])
+                    res.nontrivial = True
+                    return res
+        res.nontrivial = True
+        for o32, l32 in outs:
+            if not _cmp(res, site, "outputs (%s)" % case["direction"], o32, o64, ko * np.sqrt(D), direction=case["direction"], fam="-"):
+                return res
+            if not _cmp(res, site, "logabsdet (%s)" % case["direction"], l32, l64, kl * np.sqrt(D), direction=case["direction"], fam="-"):
+                return res
+        return res
+    # ---- batch statistics: BatchNorm in training mode / ActNorm's data-dependent initialisation
+    F = case["F"]
+    if kind == "bn_train":
+        m = T.BatchNorm(F, eps=case["eps"], momentum=0.1, affine=case["affine"])
+        site = "BatchNorm"
+    else:
+        m = T.ActNorm(F)
+        site = "ActNorm"
+    m.train()
+    twin = copy.deepcopy(m).double()
+    shape = [case["n"], F] + ([2, 2] if case.get("img") else [])
+    res.labels += ["offcentre:%g" % (abs(case["mean"]) / case["std"])]
+    res.nontrivial = True
+    for step in range(case["steps"] if kind == "bn_train" else 1):
+        X = (case["mean"] + case["std"] * torch.randn(shape, generator=g)).clamp(-10, 10)
+        Xd = X.double()
+        with torch.no_grad():
+            o64, l64 = twin(Xd)
+            ko = kl = 0.0
+            stats0 = {k: v.clone() for k, v in twin.state_dict().items()}
+            kstat = {k: 0.0 for k in stats0}
+            for _ in range(4):
+                t2 = copy.deepcopy(m).double() if step == 0 else None
+                if t2 is None:
+                    break
+                t2.train()
+                Xp = Xd * (1 + rel * (torch.rand(Xd.shape, generator=g, dtype=torch.float64) * 2 - 1))
+                po, pl = t2(Xp)
+                ko, kl = max(ko, float((po - o64).abs().max())), max(kl, float((pl - l64).abs().max()))
+                for k, v in t2.state_dict().items():
+                    if v.dtype.is_floating_point:
+                        kstat[k] = max(kstat[k], float((v - stats0[k]).abs().max()))
+            try:
+                o32, l32 = m(X)
+            except Exception as e:
+                from vf.core import nflows_site
+                res.fail("float32_raises", nflows_site(e) or site, "%s in float32 while the float64 twin returns: %s" % (type(e).__name__, str(e)[:200]),
+                         exc=type(e).__name__, direction="forward")
+                return res
+        if step > 0:
+            break      # later steps only advance the running statistics; compared below
+        # inherent to storing/forming the batch mean in single precision: x - mean carries u*|x|, divided by the batch deviation
+        red = [0] + list(range(2, Xd.dim()))
+        dev = Xd.std(red) if Xd.numel() // F > 1 else torch.ones(F, dtype=torch.float64)
+        ko = ko + rel * float(Xd.abs().max()) / max(float(dev.min()), case["eps"] ** 0.5 if kind == "bn_train" else 1e-12)
+        if not _cmp(res, site, "training-mode outputs", o32, o64, ko, direction="forward", fam="-", K=16.0):
+            return res
+        if not _cmp(res, site, "training-mode logabsdet", l32, l64, kl, direction="forward", fam="-", K=16.0):
+            return res
+        sd32 = m.state_dict()
+        for k, v in twin.state_dict().items():
+            if v.dtype.is_floating_point and not _cmp(res, site, "state '%s' after a training-mode call" % k, sd32[k], v, kstat[k], direction="forward", fam="-", K=16.0):
+                return res
+    # evaluation mode with the statistics just gathered
+    m.eval()
+    twin.eval()
+    with torch.no_grad():
+        X = (case["mean"] + case["std"] * torch.randn(shape, generator=g)).clamp(-10, 10)
+        # twin with the float32 model's own state: isolates the evaluation from the statistics compared above
+        tw2 = copy.deepcopy(m).double()
+        o64, l64 = tw2(X.double())
+        Xp = X.double() * (1 + rel * (torch.rand(X.shape, generator=g, dtype=torch.float64) * 2 - 1))
+        po, pl = tw2(Xp)
+        ko, kl = float((po - o64).abs().max()), float((pl - l64).abs().max())
+        o32, l32 = m(X)
+        if not _cmp(res, site, "evaluation-mode outputs", o32, o64, ko, direction="forward", fam="-", K=16.0):
+            return res
+        if not _cmp(res, site, "evaluation-mode logabsdet", l32, l64, kl, direction="forward", fam="-", K=16.0):
+            return res
+        b32, bl32 = m.inverse(o32)
+        b64, bl64 = tw2.inverse(o32.double())
+        if not _cmp(res, site, "evaluation-mode inverse", b32, b64, ko, direction="inverse", fam="-", K=16.0):
+            return res
+    return res
+
+
 def run_case(case):
     res = CaseResult()
+    if case.get("stat"):
+        with dtype_mode(False):
+            return _run_stat(case, res)
     with dtype_mode(False):
         torch.manual_seed(case["seed"])
         b = zoo.instantiate(case)
